@@ -140,8 +140,14 @@ def keyword_ok(kw, cfg):
     return bool(m) and m.group(4) in UNITS
 
 
-def style_problems(out, cfg):
-    """[(class, detail)] for a sanitized style value"""
+# how `url` + white space + `(` arose before the guard of COMMIT_B: the single pass of the remover deletes a complete
+# url(...) group that stands between a bare `url` and a `(`, and glues the two with its replacement ' '
+# (fixed: the class is no longer a known finding, a recurrence is a VIOLATION under this name)
+RESPACED = re.compile(r"url\s*(?:url\s*\([^)]*\)\s*)+\(", re.I)
+
+
+def style_problems(out, cfg, style_in=None):
+    """[(class, detail)] for a sanitized style value (style_in: the value it was computed from, if known)"""
     bad = []
     for decl in out.split(";"):
         if not decl.strip():
@@ -157,14 +163,18 @@ def style_problems(out, cfg):
         else:
             bad.append(("css-property-not-allowed", decl))
     for m in re.finditer(r"url\s*\(([^)]*)\)?", out, re.I):
-        # the three recorded forms all have an argument the gauntlet admits (digits, commas, white space, closed by ')');
-        # a url() kept with any other argument is not one of them
+        # admitted = an argument the gauntlet lets through (digits, commas, white space, closed by ')')
         admitted = re.fullmatch(r"[\d,\s]*", m.group(1)) is not None and m.group(0).endswith(")")
-        if admitted and m.group(0)[:3] != "url":
+        tight = m.group(0)[3] == "("
+        if admitted and not tight and style_in is not None and RESPACED.search(style_in):
+            # `url (…)` WITH white space, created by the removal of a url(...) group in between
+            bad.append(("css-url-spaced-after-removal", m.group(0)))
+        # the three forms repaired by COMMIT_B keep their class names: if one comes back it is reported under its old name
+        elif admitted and tight and m.group(0)[:3] != "url":
             bad.append(("css-url-uppercase", m.group(0)))
-        elif admitted and not m.group(1).strip():
+        elif admitted and tight and not m.group(1).strip():
             bad.append(("css-url-empty", m.group(0)))
-        elif admitted and re.search(r"\s", m.group(1).strip()):
+        elif admitted and tight and re.search(r"\s", m.group(1).strip()):
             bad.append(("css-url-with-spaces", m.group(0)))
         else:
             bad.append(("css-url-kept", m.group(0)))
@@ -219,7 +229,7 @@ def oracle_stream(toks, out, cfg):
                         if p:
                             bad.append((p, {"attr": key, "value": v}))
                     if key == (None, "style"):
-                        for cls, d in style_problems(v, cfg):
+                        for cls, d in style_problems(v, cfg, t["data"].get(key)):
                             bad.append((cls, {"style_in": t["data"].get(key), "style_out": v, "detail": d}))
                 if o["name"] in local_names and re.match(r"^\s*[^#\s]", o["data"].get((XLINK_NS, "href"), "")):
                     bad.append(("svg-nonlocal-href-kept", {"name": o["name"], "value": o["data"][(XLINK_NS, "href")]}))
@@ -304,6 +314,7 @@ CSS_PROPS = ["color", "COLOR", "Color", "background-color", "width", "font-famil
 CSS_VALUES = ["red", "RED", "#fff", "#FFF", "#ggg", "rgb(1,2,3)", "rgb(10%,2%,3%)", "rgb(1,2", "1px", "12.5em", "123px", "1.2.3px", "0", "",
               " ", "auto", "solid", "1px solid red", "1px  solid\tred", "none !important", "url(x)", "URL(x)", "url( x )", "url(1)", "URL(1)",
               "Url(1)", "url( 1 2 )", "url (1)", "url(\n1)", "url()", "url( )", "url(1,2)", "u\\rl(1)", "url(#a)", "url('x')", "url(\"x\")",
+              "urlurl(1)(2)", "url url(x)\n(2)", "URLurl()(1,2)", "uurl(1)rl(2)", "url(url(1))", "url(1", "URL( 1", "url(1)(2)", "uRl(\n)",
               "expression(1)", "expression(alert(1))", "EXPRESSION(1)", "(1)", "( 1 , 2 )", "()", "(a)", "((1))", "'a b'", "\"a b\"", "'a;b'",
               "''", "'é'", "a-b", "a-", "-a", "a--b", "a-b-c", "/* c */", "/**/red", "re/**/d", "\\72 ed", "é", "а", "１２", "١px", "１px", "ｕｒｌ(1)",
               "x:y", "a,b", "100%", "50% 50%", ".5em", "5.em", "1 2 3 4", "1cm 2mm 3in", "1zz", "1px)", "1,", "thin", "transparent",
@@ -328,6 +339,10 @@ URI_ATTRS = [(None, "href"), (None, "src"), (None, "cite"), (None, "action"), (N
 REF_ATTRS = [(None, "fill"), (None, "stroke"), (None, "clip-path"), (None, "filter"), (None, "mask"), (None, "marker-end"), (None, "cursor")]
 REF_VALUES = ["url(#a)", "url(http://e/x#a)", "url( http://e )", "URL(http://e)", "url(x) url(#y)", "url(&lt;x)", "red", "url(#a) url(b)",
               "url(\n#a)", "url ( x )", "url(x", "url()", "url(a)", "url(ab)", "&amp;lt;", "a&amp;b&gt;", "url(a))", "url((a)"]
+LOCAL_HREFS = ["#a", " #a", "\n #a", "", " ", "\n", "x", " x", "\nx", "a#b", "#", " # ", "\xa0#a", "\x1f#a", "\u2028x", "\u200b#a", "\x00#a",
+               "http://e/x#a", "&#35;a", "\t\r\n\x0b\x0c#a", "\u3000\u3000"]
+LOCAL_ELEMS = ["use", "animate", "set", "filter", "feImage", "linearGradient", "radialGradient", "tref", "textpath", "cursor", "altGlyph",
+               "pattern", "animateColor", "animateMotion", "animateTransform"]
 OTHER_ATTRS = [(None, "id"), (None, "class"), (None, "title"), (None, "onclick"), (None, "onload"), (None, "data-x"), (None, "formaction"),
                (XML_NS, "lang"), (XML_NS, "space"), (XLINK_NS, "title"), (XLINK_NS, "actuate"), (gen.XMLNS_NS, "xlink"), (None, "xmlns"),
                (None, "viewBox"), (None, "d"), (None, "type"), (None, "name"), (None, "srcdoc"), ("urn:unknown", "a")]
@@ -357,6 +372,10 @@ def enrich(rng, toks, protocols):
                     d[(None, "style")] = gen_style(rng)
                 elif r < 0.8:
                     d[rng.choice(REF_ATTRS)] = rng.choice(REF_VALUES)
+                elif r < 0.86:
+                    d[(XLINK_NS, "href")] = rng.choice(LOCAL_HREFS)
+                    if rng.random() < 0.6:   # an element of svg_allow_local_href, so that the local-reference rule decides
+                        t["namespace"], t["name"] = rng.choice([SVG_NS, SVG_NS, SVG_NS, None, HTML_NS]), rng.choice(LOCAL_ELEMS)
                 else:
                     d[rng.choice(OTHER_ATTRS)] = rng.choice(gen.ATTR_VALUES + ["&lt;&amp;&gt;", "<>&\"'"])
             t["data"] = d
@@ -380,6 +399,14 @@ SOURCE_ATTRS = [' href="jav&#x09;ascript:alert(1)"', ' href="&#1;javascript:x"',
                 ' poster=javascript:x', ' background="mocha:x"', ' href="&#xFFFD;javascript:x"', ' href="java\u2028script:x"']
 
 
+REGRESSION_CSS = ["color: urlurl(1)(2)", "color: url url(x)\n(2)", "color: URLurl()(1,2)", "color: url (1)", "color: URL\n(1)", "color: URL(1)", "color: url( 1 2 )", "color: url( )", "color: Url(\n)", "color: uRL(1,2)", "background: URL( 1 )",
+                  "color: url()", "color: url(1)", "color: url(1", "color: url(url(1))", "color: u\\rl(1)", "color: URL(x)"]
+REGRESSION_SVG = ['<svg><use xlink:href="http://e/x#a"></use></svg>', '<svg><animate xlink:href=" x"></animate></svg>',
+                  '<svg><set xlink:href="\nx#a"></set></svg>', '<svg><use xlink:href="#a"></use></svg>',
+                  '<svg><use xlink:href=" #a"></use></svg>', '<svg><use xlink:href=""></use></svg>',
+                  '<svg><a xlink:href="http://e/"></a></svg>']
+
+
 def random_lists(rng):
     d = defaults()
     cfg = {}
@@ -397,7 +424,15 @@ def random_lists(rng):
 # ------------------------------------------------------------------------------------------------------------------
 # regex correspondence
 ALPHABETS = {"UriStrip": "a` \n\x7f\xa0\u2028", "SvgUrl": "url( #)x\n", "LocalHref": " #a\nx", "DataContentType": "a/;charset=b64,-.\n",
-             "CssUrl": "url( )x\n", "Gauntlet1": "a-:;'\"(1, )é$", "Gauntlet2": "a-: ;x\n", "Decl": "a-: ;\né", "Keyword": "#afrgb(1%,).cm"}
+             "CssUrl": "uUrRlL( )x\n", "CssUrlGuard": "uUrRlL( )x\n", "Gauntlet1": "a-:;'\"(1, )é$", "Gauntlet2": "a-: ;x\n", "Decl": "a-: ;\né", "Keyword": "#afrgb(1%,).cm"}
+
+
+# url(...)-shaped subjects for the remover (the exhaustive part over the alphabet is too short to contain a whole match):
+# prefix, `url` in mixed case, white space, `(`, argument, closing, what follows
+CSSURL_SHAPES = [a + u + w + "(" + arg + close + post
+                 for a in ("", "x", "u", "url") for u in ("url", "URL", "uRl", "Url") for w in ("", " ", "\n")
+                 for arg in ("", "1", " ", "x)", "(", "url(", "1 2") for close in (")", "", "))")
+                 for post in ("", " ", "(2)", "x", "url(1)")]
 
 
 def enc_m(m, base=0):
@@ -425,7 +460,11 @@ def real_re(rx, op, s, repl="R"):
 def regex_cases(ctx, extra):
     sys.path.insert(0, lean.VERIF + "/tools")
     import gen_sanitizer
-    pats = gen_sanitizer.patterns()
+    try:
+        pats = gen_sanitizer.patterns()
+    except Exception as e:          # the library's re calls are not the ones the model was written for
+        ctx.fail("regex-calls-changed", "tools/gen_sanitizer.py cannot identify the sanitizer's regular expressions", {"error": str(e)[:400]})
+        return [], []
     reqs, reals = [], []
     budget = ctx.scale(3000, 60000)
     for name, (pat, flags) in pats.items():
@@ -475,7 +514,7 @@ def classify_css(style, cfg):
 
     def first(st):
         try:
-            pr = style_problems(F.sanitize_css(st), c)
+            pr = style_problems(F.sanitize_css(st), c, st)
         except Exception as e:
             return "sanitize_css-raises:" + type(e).__name__
         return pr[0][0] if pr else None
@@ -657,7 +696,8 @@ def run(ctx):
              "Gauntlet1": [gen_style(rng) for _ in range(ctx.scale(300, 5000))],
              "Gauntlet2": [gen_style(rng) for _ in range(ctx.scale(300, 5000))],
              "Decl": [gen_style(rng) for _ in range(ctx.scale(300, 5000))],
-             "CssUrl": [gen_style(rng) for _ in range(ctx.scale(300, 5000))] + CSS_VALUES,
+             "CssUrl": [gen_style(rng) for _ in range(ctx.scale(300, 5000))] + CSS_VALUES + CSSURL_SHAPES,
+             "CssUrlGuard": [gen_style(rng) for _ in range(ctx.scale(300, 5000))] + CSS_VALUES + CSSURL_SHAPES,
              "SvgUrl": REF_VALUES + CSS_VALUES, "Keyword": [k for v in CSS_VALUES for k in v.split()],
              "LocalHref": REF_VALUES + ["#a", " #a", "\n#a", " a", "", " ", "a\nb"], "UriStrip": JUNK}
     reqs, reals = regex_cases(ctx, extra)
@@ -725,16 +765,19 @@ def run(ctx):
             cls, det = classify_exception(e, [tok], cc)
             ctx.fail(cls, "the sanitizer raises instead of sanitizing", dict(det, allowed_protocols=sorted(cc["allowed_protocols"]), source="G-url"))
         ctx.case("san:uri", reqs[-1], nontrivial=(browser_scheme(v) is not None))
-    for i in range(ctx.scale(5000, 120000)):
-        cfg = configs[i % len(configs)] if i % 3 == 0 else None
-        st = gen_style(rng) if i % 10 else "".join(rng.choice("a-:;'\"(1, )éuUrRlL#%.\n!") for _ in range(rng.randint(0, 10)))
+    n_reg = len(REGRESSION_CSS)
+    for i in range(-n_reg, ctx.scale(5000, 120000)):
+        cfg = configs[i % len(configs)] if i % 3 == 0 and i >= 0 else None
+        # i < 0: regression of the fixed findings C09-css-url-uppercase/-spaces/-empty/-respaced (COMMIT_B); their classes are no longer
+        # known findings, so a style of this list that keeps its url() again is a VIOLATION
+        st = REGRESSION_CSS[i + n_reg] if i < 0 else gen_style(rng) if i % 10 else "".join(rng.choice("a-:;'\"(1, )éuUrRlL#%.\n!") for _ in range(rng.randint(0, 10)))
         reqs.append("san:css %s %s" % (enc_lists(cfg), wire.enc_str(st)))
         Fc = F if cfg is None else S().Filter([], **cfg)
         try:
             o = Fc.sanitize_css(st)
             reals.append("ok " + wire.enc_str(o))
             seen = set()
-            for cls, d in style_problems(o, cfg or D):
+            for cls, d in style_problems(o, cfg or D, st):
                 if cls not in seen:
                     seen.add(cls)
                     report(ctx, cls, {"style_in": st, "style_out": o, "detail": d}, [], cfg, "G-css")
@@ -749,6 +792,11 @@ def run(ctx):
     for html in ('<a href="data:x">y</a>', '<img src="data:text/html,x">', '<a href="DATA:image/png,x">y</a>'):
         toks = gen.walk_real(gen.parse_real(html, tb="etree", fragment="div"), "etree")
         one_stream(ctx, toks, dict(D, allowed_protocols=frozenset(["http", "https"])), reqs, reals, "regression-1347e6e")
+    # regression of the fixed finding C09-svg-local-href-dead (COMMIT_A): non-local xlink:href on the svg_allow_local_href
+    # elements must be deleted (a kept one is reported by oracle_stream as svg-nonlocal-href-kept, no longer a known class)
+    for html in REGRESSION_SVG:
+        toks = gen.walk_real(gen.parse_real(html, tb="etree", fragment="div"), "etree")
+        one_stream(ctx, toks, None, reqs, reals, "regression-COMMIT_A")
     for i in range(ctx.scale(2500, 60000)):
         cfg = configs[i % len(configs)] if i % 2 else None
         r = i % 5
